@@ -74,9 +74,20 @@ func (ex *Exec) intrinsic(fn *ssa.Function, args []Value) (Value, bool) {
 			me := ex.sch.cur
 			ex.wait(func() bool { return ex.othersQuiescent(me) }, "quiesce")
 			return nil, true
-		case "verifAssertNoLiveThreads":
+		case "verifAssertNoLiveThreads", "verifAssertNoLiveThreadsExcept":
 			// every worker thread must have finished; the violation carries the blocking sites
-			if sites := ex.liveSites(); len(sites) > 0 {
+			sites := ex.liveSites()
+			if fn.Name() == "verifAssertNoLiveThreadsExcept" {
+				allow := ex.describe(args[1])
+				var keep []string
+				for _, st := range sites {
+					if !strings.Contains(st, allow) {
+						keep = append(keep, st)
+					}
+				}
+				sites = keep
+			}
+			if len(sites) > 0 {
 				sort.Strings(sites)
 				ex.violation("assert", ex.describe(args[0]), nil)
 				if n := len(ex.viols); n > 0 {
